@@ -284,12 +284,20 @@ struct pshadow { uintptr_t key; int used; int wtid; uint32_t wclk; uint32_t rclk
 #define PSH (1 << 16)
 static struct pshadow *psh;
 static int race_check = 1;
+static int own_stack_check = 1;
 static struct pshadow *psh_get (uintptr_t key) {
 	unsigned h = (unsigned) (key * 2654435761u) & (PSH - 1);
 	int n = 0;
 	while (psh[h].used && psh[h].key != key) { h = (h + 1) & (PSH - 1); if (++n > PSH - 2) return NULL; }
 	if (!psh[h].used) { psh[h].used = 1; psh[h].key = key; psh[h].wtid = -1; }
 	return &psh[h];
+}
+static struct pshadow *psh_find (uintptr_t key) {     /* lookup only */
+	unsigned h = (unsigned) (key * 2654435761u) & (PSH - 1);
+	int n = 0;
+	if (psh == NULL) return NULL;
+	while (psh[h].used && psh[h].key != key) { h = (h + 1) & (PSH - 1); if (++n > PSH - 2) return NULL; }
+	return psh[h].used ? &psh[h] : NULL;
 }
 static void dead_stack_check (int t, const volatile void *addr, const char *what) {
 	int i;
@@ -311,8 +319,13 @@ void vrt_plain (const void *addr, int size, int is_write, const void *pc) {
 	int t = self_id, g;
 	if (!started || in_snapshot || t == 0) return;
 	nplain++;
-	if ((char *) addr >= T[t].stack_lo && (char *) addr < T[t].stack_hi) return; /* own stack */
-	if (is_write && T[t].obs_on && !((const char *) addr >= T[t].obs_lo && (const char *) addr + size <= T[t].obs_hi)) {
+	int own = (char *) addr >= T[t].stack_lo && (char *) addr < T[t].stack_hi;
+	if (own) {
+		/* own stack: private unless another thread has accessed this very word (an on-stack nsync_waiter_s record handed to wakers:
+		   nsync_wait_n's nw_set[], nsync_sem_wait_with_cancel_'s nw) -- then the owner's accesses are checked like any shared data */
+		if (!own_stack_check || !race_check || psh_find ((uintptr_t) addr >> 2) == NULL) return;
+	}
+	if (!own && is_write && T[t].obs_on && !((const char *) addr >= T[t].obs_lo && (const char *) addr + size <= T[t].obs_hi)) {
 		/* observer mode (C16): this thread is inside a call that may only observe */
 		char nm[48];
 		addr_name (addr, nm, sizeof (nm));
@@ -582,6 +595,7 @@ static void setup (void) {
 	max_steps = vrt_opt ("MAXSTEPS", 400000);
 	switch_pct = vrt_opt ("SWITCH", 10 + (int) vrt_rand (60));
 	clock_pct = vrt_opt ("CLOCKP", (int) vrt_rand (8));
+	own_stack_check = vrt_opt ("OWNSTACK", 1);
 	inject_pct = vrt_opt ("INJECT", 0);
 	inject_left = vrt_opt ("INJECTK", 3);
 	strategy = vrt_opt ("STRATEGY", (int) vrt_rand (4) == 0 ? 1 : 0);
